@@ -91,13 +91,20 @@ def run(ctx, family=FAMILY, detail=False, decorate_docs=False, space=False):
     ad = random_doc(ctx.rng, space=space)
     if decorate_docs:
       decorate(ad, ctx.rng, index)
-    jobs.append((ad, rid, None, detail, False))
+    if family in ("c01", "c02") and ctx.rng.random() < 0.25:
+      # re-time the same document object after the first round of snapshots and observe it again
+      jobs.append((ad, rid, None, detail, False, ctx.rng.randrange(1 << 30)))
+    else:
+      jobs.append((ad, rid, None, detail, False))
     origin[rid] = ("random", ad)
   recs = observe_all(jobs)
   good = []
   for r in recs:
+    if r["id"] >= 1000000 and "error" not in r:
+      # second round of a re-timed document: its abstract document is the recorded one
+      origin[r["id"]] = ("random-retimed", dict(r["doc"], D=origin[r["id"] - 1000000][1].get("D", 2)))
     if "error" in r:
-      src, ad = origin[r["id"]]
+      src, ad = origin.get(r["id"]) or origin[r["id"] - 1000000]
       f = doc_features(ad)
       f["error"] = r["error"][:80]
       ctx.violation(family + "_snapshot_raised", {"source": src, "doc": ad, "traceback": r["tb"]}, f, r["error"])
